@@ -264,6 +264,8 @@ def _run_mutant(args):
   except Exception as e:  # pylint: disable=broad-except
     return desc, 'broken', 'internal: %r' % e, rel, qual, spec
   new_v = [v for v in rep.violations if (v['rule'], v['key']) not in baseline]
+  if not new_v and rep.analysis_errors:
+    return desc, 'broken', rep.analysis_errors[0][:120], rel, qual, spec
   if new_v:
     return (desc, 'killed', ','.join(sorted(set(v['rule'] for v in new_v))),
             rel, qual, spec)
